@@ -44,8 +44,16 @@ def unpack_stages_a(prop, tier, seed):
                  sim={"num": 30000, "depth": 8}, workers=1),
         ]
     if prop == "C15":
+        # the same machine under an unprivileged caller (FS.tla Unpriv = TRUE: owner bits decide), replayed in a child
+        # process that has dropped to uid 65534: read-only files overwritten, directory modes restored in archive order
+        unpriv = dict(name="unpriv3", module="MC_Unpack", cfg="MC_Unpack_nv.cfg", family="unpack",
+                      overrides={"MaxLen": "3", "Alphabet": "<- AlphaPriv", "Unpriv": "<- MCTrue"},
+                      vh_args=["-props", prop, "-gamma", "0,%d" % (seed * 3 + 1), "-mode", "unpriv"],
+                      judge=dict(UNPACK_JUDGE, overrides={"Unpriv": "<- MCTrue"}), exhaustive=True, timeout=3000)
+        unprivsim = dict(unpriv, name="unprivsim", overrides={"MaxLen": "8", "Alphabet": "<- AlphaPriv", "Unpriv": "<- MCTrue"},
+                         sim={"num": 20000, "depth": 10}, workers=1, exhaustive=False)
         if tier == "quick":
-            return [
+            return [unpriv,
                 dict(name="fid3", module="MC_Unpack", cfg="MC_Unpack_nv.cfg", family="unpack",
                      overrides={"MaxLen": "3", "Alphabet": "<- AlphaFidelityQ"}, vh_args=va, judge=UNPACK_JUDGE,
                      exhaustive=True),
@@ -57,6 +65,7 @@ def unpack_stages_a(prop, tier, seed):
             dict(name="fidsim", module="MC_Unpack", cfg="MC_Unpack_nv.cfg", family="unpack",
                  overrides={"MaxLen": "10", "Alphabet": "<- AlphaFidelity"}, vh_args=va, judge=UNPACK_JUDGE,
                  sim={"num": 30000, "depth": 12}, workers=1),
+            unpriv, unprivsim,
         ]
     raise KeyError(prop)
 
@@ -175,8 +184,9 @@ def builder_stages(prop, tier, seed):
                       vh_args=["-props", prop, "-gamma", g, "-mode", "faults"], timeout=3000)
         wfault = pack_stage("writefaults", "rt", "none", prop, seed, extra_args=["-mode", "wfaults"])
         return [faults, ufault, wfault]
+    regsub = builder_stage("regsub", prop, seed, {"Adds": "<- MCAddsG", "Pkgs": '{"P1"}', "MaxEdges": "1", "MaxAdds": "2"})
     if prop == "C13":
-        return [coal, base, sched] if not q else [coal, sched]
+        return [coal, base, regsub, sched] if not q else [coal, regsub, sched]
     if prop == "C09":
         return [coal] if q else [coal, vers, base]
     raise KeyError(prop)
@@ -373,6 +383,11 @@ def check(vc, prop, tier, seed, t0):
     known = vc.load_known()
     vh = vc.build_vh(race=P.get("race", False))
     scratch = vc.scratch_dir()
+    # every arena of this run lives below one directory that is removed with the run, whatever happens to the replayers
+    import tempfile
+    arena_base = tempfile.mkdtemp(prefix="verif-arena-", dir="/dev/shm" if os.path.isdir("/dev/shm") and os.access("/dev/shm", os.W_OK) else None)
+    os.chmod(arena_base, 0o755)
+    os.environ["VERIF_ARENA"] = arena_base
     flags, samples = [], []
     states = transitions = total = agree = mismatch = nontrivial = 0
     exhaustive = True
@@ -493,3 +508,5 @@ def check(vc, prop, tier, seed, t0):
         return rc
     finally:
         shutil.rmtree(scratch, ignore_errors=True)
+        shutil.rmtree(arena_base, ignore_errors=True)
+        os.environ.pop("VERIF_ARENA", None)
